@@ -102,6 +102,10 @@ from GTC.lib import (
     value_seq
 )
 
+# used by the label step of LineFitOLS.x_from_y / y_from_x (same definition as in type_a.py);
+# without it a call with x_label= / y_label= raises NameError
+result = lambda un,label: un._intermediate(label)
+
 __all__ = (
     'uniform',
     'triangular',
